@@ -63,6 +63,8 @@ def generate(rng, i, tier):
         c = rng.random()
         if c < 0.2:
             return None
+        if c < 0.23:
+            return 0.0  # a limit of zero: nothing that can lose may be sent
         if dyadic:
             return float(rng.choice([1, 2, 3, 4, 5, 6, 8, 10, 12, 20]))
         return round(rng.choice([0.5, 1.0, 2.0, 4.0]) * scale, 2) if c < 0.8 else 1000.0
